@@ -293,8 +293,9 @@ claim("C07",
       "dialect flags and translate_cte are parameters / externals of the slices; the rest of except(), translate_query and "
       "translate_set_ops_pipeline is dropped.")
 
-prop("C06", ["desugar", "sort_take", "func_env", "cte_define", "split_order", "sql_prec", "take_range", "rel_names", "group_take", "module_names", "select_shape", "positional_map"],
-     select={"positional_map": lambda n: n.split(".", 1)[1] in ("PM8", "PM5", "PM6", "PM6i", "PM7", "PM7i", "compute_arm.safety", "add_columns.safety"),
+prop("C06", ["desugar", "sort_take", "func_env", "cte_define", "split_order", "sql_prec", "take_range", "rel_names", "group_take", "module_names", "select_shape", "positional_map", "flatten_sort"],
+     select={"flatten_sort": lambda n: n.split(".", 1)[1] in ("FO1", "FO2", "FT1", "FT2", "FT3", "FS1", "FS3", "flatten_other_arm.safety", "flatten_call_slice.safety"),
+             "positional_map": lambda n: n.split(".", 1)[1] in ("PM8", "PM5", "PM6", "PM6i", "PM7", "PM7i", "compute_arm.safety", "add_columns.safety"),
              "select_shape": lambda n: n.split(".", 1)[1] in ("SS2a", "SS2b", "SS2c", "translate_select_item.safety"),
              "split_order": lambda n: n.split(".", 1)[1] in ("RO1", "RO2", "RO3", "reorder.safety") or n.split(".", 1)[1].startswith(("SO1.Take.", "SO1.Distinct.", "SO1.DistinctOn.")),
              "take_range": lambda n: n.split(".", 1)[1] in ("TR1", "TR2", "TR2n", "SB1", "SB2", "TRI1", "OM1", "range_of_ranges.safety", "take_slice.safety"),
@@ -307,6 +308,6 @@ claim("C06",
       "`all` turns the conditions of n consecutive filters into the single right-nested conjunction c1 AND (c2 AND ..) in pipeline order (FC1, FC2), "
       "which is true on a row exactly when every condition is (FC3, inductive lemma); the rewrite of `lo <= x AND x <= hi` into BETWEEN fires only for "
       "exactly that shape with one x and keeps lo / hi in place (NP6a-b, relevant to expression-to-function refactorings); the ORDER BY emitted "
-      "with a LIMIT is the embedded or inherited sort (sort_take, relevant to naming a sorted prefix with let / into). applying a function binds parameter i to argument i and nothing else - env_of_closure, any number of parameters, loop invariant (func_env EC1-3). a compute is moved in front of a take only if it is row-local, so naming the `.. | take n` prefix with let cannot change what a following window or grouped take sees (split_order RO1-3). a let-table that is inlined as a sub-query for one reference stays definable as a CTE for the next one (cte_define CI1-3). consecutive takes merged into one LIMIT/OFFSET select exactly the rows that taking one after the other selects - which is what the let form of the same program executes (take_range TR1, TR2). every CTE gets a name different from the CTEs named before it, so a declaration moved into a module (`staging.t`) cannot shadow a table with the same short name (rel_names AN1-4). a take, a DISTINCT or a DISTINCT ON stays in one SELECT only with the transforms that SQL applies after it, so the SELECT boundary that `let` forces after such a prefix is one the inline form has as well (split_order SO1.Take / Distinct / DistinctOn rows; the pair Take-Distinct is a recorded finding); a column without a name of its own leaves a CTE under a generated alias that no column carries, never under the name its expression would infer (select_shape SS2a-c). the columns a set operation pairs by position include every computed column of the top pipeline, window functions too, so the inline form of `.. | derive {s = sum a} | append ..` pairs the same columns as the form whose prefix is named by `let` (positional_map PM8). NOT proved: let/into, "
+      "with a LIMIT is the embedded or inherited sort (sort_take, relevant to naming a sorted prefix with let / into). applying a function binds parameter i to argument i and nothing else - env_of_closure, any number of parameters, loop invariant (func_env EC1-3). a compute is moved in front of a take only if it is row-local, so naming the `.. | take n` prefix with let cannot change what a following window or grouped take sees (split_order RO1-3). a let-table that is inlined as a sub-query for one reference stays definable as a CTE for the next one (cte_define CI1-3). consecutive takes merged into one LIMIT/OFFSET select exactly the rows that taking one after the other selects - which is what the let form of the same program executes (take_range TR1, TR2). every CTE gets a name different from the CTEs named before it, so a declaration moved into a module (`staging.t`) cannot shadow a table with the same short name (rel_names AN1-4). a take, a DISTINCT or a DISTINCT ON stays in one SELECT only with the transforms that SQL applies after it, so the SELECT boundary that `let` forces after such a prefix is one the inline form has as well (split_order SO1.Take / Distinct / DistinctOn rows; the pair Take-Distinct is a recorded finding); a column without a name of its own leaves a CTE under a generated alias that no column carries, never under the name its expression would infer (select_shape SS2a-c). the columns a set operation pairs by position include every computed column of the top pipeline, window functions too, so the inline form of `.. | derive {s = sum a} | append ..` pairs the same columns as the form whose prefix is named by `let` (positional_map PM8). a transform that is neither a sort nor a group leaves the sort in effect exactly as its input left it, so an identity `select` inserted after a `sort` changes nothing for the window functions and takes behind it (flatten_sort FO1-2, FT1-3). NOT proved: let/into, "
       "beta-reduction, modules.",
       "expand_expr, the call-node constructors and the meaning of std.and (three-valued AND) are externals / axioms.")
